@@ -79,6 +79,9 @@ String TextFile::readLine(char newline)
 bool TextFile::readLine(String& s)
 {
 	int chunk = 255;
+#ifdef ASL_VERIF
+	chunk = asl_verif_knob("textfile.line_chunk", chunk);
+#endif
 	int m = 0, n = 0;
 	s[0] = '\0';
 	if(!_file && !open(READ))
